@@ -108,6 +108,20 @@ def check_giant(case):
     probe_sub = sorted(set([0, 1, 99999, 100000, 100001, nsub - 2, nsub - 1]))
     for s_ in probe_sub:
         c = 2 * s_
+        try:
+            checks = giant_checks(cs, cv, sv, chv, s_, c, K)
+        except Exception as e:
+            viols.append(('giant:raise:%s' % type(e).__name__, '%s: a map raised %r at subset index %d' % (d, e, s_)))
+            continue
+        trans += len(checks)
+        for name, got, want in checks:
+            if got != want:
+                viols.append(('giant:%s' % name, '%s: %s at subset index %d gave %r expected %r' % (d, name, s_, got, want)))
+    return Outcome(cls='giant', transitions=trans, viols=viols, nontrivial=True)
+
+
+def giant_checks(cs, cv, sv, chv, s_, c, K):
+    if True:
         checks = [('map_cycle_to_samples', arr(cs.map_cycle_to_samples(cv, c)), (2 * c,)),
                   ('map_subset_to_cycle', arr(cs.map_subset_to_cycle(sv, s_)), (c,)),
                   ('map_chain_to_subset', arr(cs.map_chain_to_subset(chv, s_)), (s_,)),
@@ -117,11 +131,7 @@ def check_giant(case):
                   ('map_sample_to_chain', nm(cs.map_sample_to_chain(chv, sv, cv, 2 * c)), s_),
                   ('map_sample_to_subset', nm(cs.map_sample_to_subset(sv, cv, 2 * c + 1)), None),
                   ('map_cycle_to_chain', nm(cs.map_cycle_to_chain(chv, sv, c + 1)) if c + 1 < K else None, None)]
-        trans += len(checks)
-        for name, got, want in checks:
-            if got != want:
-                viols.append(('giant:%s' % name, '%s: %s at subset index %d gave %r expected %r' % (d, name, s_, got, want)))
-    return Outcome(cls='giant', transitions=trans, viols=viols, nontrivial=True)
+    return checks
 
 
 def check_case(case):
